@@ -2,6 +2,10 @@
 // TLC enumerates from spec/pool/MuxPool.tla; after every operation the result, the books (gauges,
 // requests resource, verif accessors) and the truth (connection objects, live streams and the
 // connection each one runs on) are recorded for MuxPoolTrace.
+// A request is two steps of the code: "lease" (CheckAndInit + NewStream: the pool hands out a sender) and
+// "send" (the caller writes the request through it); "new" is both back to back. Histories with SplitNew take
+// them apart with any other operation in between, so a send can find its connection gone (the peer closed it,
+// the pool closed it, a go-away found it idle): the close has been observed on the proxy side before the write.
 package main
 
 import (
@@ -9,6 +13,7 @@ import (
 	"encoding/json"
 	"fmt"
 	"sort"
+	"strings"
 	"time"
 
 	"mosn.io/api"
@@ -44,6 +49,7 @@ type mstream struct {
 	lst    *listener
 	oneway bool
 	ctx    context.Context
+	pend   bool // handed out by the pool, request not yet written
 }
 
 type mworld struct {
@@ -194,6 +200,7 @@ type mop struct {
 	S      int    `json:"s"`
 	C      int    `json:"c"`
 	I      int    `json:"i"`
+	Enc    bool   `json:"enc"` // send: the frame can be encoded
 }
 type mcase struct {
 	Mr   int    `json:"mr"`
@@ -202,13 +209,16 @@ type mcase struct {
 	Ops  []mop  `json:"ops"`
 }
 
-func (w *mworld) request(oneway bool) types.HeaderMap {
+func (w *mworld) request(oneway, enc bool) types.HeaderMap {
 	if w.b.name == "h2" {
 		return protocol.CommonHeader{"x-c09": "1"}
 	}
 	r := bolt.NewRpcRequest(0, nil, nil)
 	if oneway {
 		r.CmdType = bolt.CmdTypeRequestOneway
+	}
+	if !enc {
+		r.Class = strings.Repeat("c", 1<<16) // the class length is a 2-byte field: the encoder refuses the frame
 	}
 	return r
 }
@@ -236,7 +246,20 @@ func (w *mworld) waitNotConnecting() bool {
 	}
 }
 
+// doNew: a request in one go (lease + send).
 func (w *mworld) doNew(o mop, e vh.Ev) {
+	st := w.doLease(o, e)
+	if st == nil {
+		return
+	}
+	delete(e, "res")
+	e["c"] = 0
+	w.doSend(st, true, e)
+	delete(e, "enc")
+}
+
+// doLease: CheckAndInit + NewStream. The stream is numbered and watched; nothing is written.
+func (w *mworld) doLease(o mop, e vh.Ev) *mstream {
 	ctx := newCtx()
 	retried := false
 	if o.Retry {
@@ -252,7 +275,7 @@ func (w *mworld) doNew(o mop, e vh.Ev) {
 	if w.ctxDown != nil {
 		if o.I < 1 || o.I > len(w.down) || w.down[o.I-1].Closed() {
 			e["res"] = "infeasible"
-			return
+			return nil
 		}
 		e["i"] = o.I
 		if !retried {
@@ -270,7 +293,7 @@ func (w *mworld) doNew(o mop, e vh.Ev) {
 		// the connection is dialled in the background; the cluster manager polls CheckAndInit the same way
 		if !w.waitNotConnecting() {
 			e["res"] = "stuck"
-			return
+			return nil
 		}
 	}
 	var rc *receiver
@@ -299,7 +322,7 @@ func (w *mworld) doNew(o mop, e vh.Ev) {
 				}
 			}
 		}
-		return
+		return nil
 	}
 	var conn *xc09.Conn
 	if v, err := variable.Get(ctx, types.VariableUpstreamConnectionID); err == nil {
@@ -310,36 +333,79 @@ func (w *mworld) doNew(o mop, e vh.Ev) {
 	if conn == nil && w.b.name != "bind" { // the binding pool names the connection only when it dials it
 		vh.Must(fmt.Errorf("connection id variable not set"), "stream identity")
 	}
-	st := &mstream{id: len(w.streams) + 1, conn: conn, sender: sender, recv: rc, oneway: o.Oneway, ctx: ctx,
+	st := &mstream{id: len(w.streams) + 1, conn: conn, sender: sender, recv: rc, oneway: o.Oneway, ctx: ctx, pend: true,
 		lst: &listener{destroyed: make(chan struct{})}}
 	sender.GetStream().AddEventListener(st.lst)
 	w.streams = append(w.streams, st)
-	e["s"] = st.id
+	e["s"], e["res"] = st.id, "ok"
 	if conn != nil {
-		e["cvar"] = conn.N
+		e["cvar"], e["c"] = conn.N, conn.N
 	}
+	return st
+}
+
+// clientOf: the connection of the client the binding pool keeps for downstream connection i (the pool's books).
+func (w *mworld) clientOf(i int) *xc09.Conn {
+	sl, _ := w.slots()
+	for _, s := range sl {
+		if s.I == i && s.C != 0 {
+			return w.reg.Get(s.C)
+		}
+	}
+	return nil
+}
+
+// doSend: the caller writes the request of a leased stream. Whether the write can succeed is decided before it: the
+// connection object is still open on the proxy side (a close has gone through every listener otherwise) and the
+// frame is encodable. ok = the request arrived at the upstream; sendfail = the stream was destroyed instead.
+func (w *mworld) doSend(st *mstream, enc bool, e vh.Ev) {
 	cn := func() int {
-		if conn != nil {
-			return conn.N
+		if st.conn != nil {
+			return st.conn.N
 		}
 		return 0
 	}
-	sender.AppendHeaders(ctx, w.request(o.Oneway), true)
-	select {
-	case a := <-w.b.up.Arrivals:
+	e["s"], e["c"], e["enc"], e["oneway"] = st.id, cn(), enc, st.oneway
+	mayArrive := enc && (st.conn == nil || st.conn.Open())
+	st.pend = false
+	st.sender.AppendHeaders(st.ctx, w.request(st.oneway, enc), true)
+	arrived := func(a xc09.Arrival) {
 		st.up, st.wid = a.Conn, a.ID
 		e["res"] = "ok"
 		if rcn := w.reg.ByLocalAddr(a.Conn.Remote); rcn != nil {
 			e["c"] = rcn.N
-			if conn == nil {
+			if st.conn == nil {
 				st.conn = rcn
 				e["cvar"] = rcn.N
 			}
 		}
-	case <-st.lst.destroyed:
-		e["res"], e["c"] = "sendfail", cn()
-	case <-time.After(opDeadline):
-		e["res"], e["c"] = "stuck", cn()
+	}
+	if mayArrive {
+		select {
+		case a := <-w.b.up.Arrivals:
+			arrived(a)
+		case <-st.lst.destroyed:
+			e["res"] = "sendfail"
+		case <-time.After(opDeadline):
+			e["res"] = "stuck"
+		}
+	} else {
+		// the write cannot reach the peer: the stream must be over when AppendHeaders has returned (it was ended by the
+		// close of its connection, or the failed write resets it)
+		select {
+		case <-st.lst.destroyed:
+			e["res"] = "sendfail"
+		case <-time.After(opDeadline):
+			e["res"] = "stuck"
+		}
+		select {
+		case a := <-w.b.up.Arrivals:
+			arrived(a)
+		default:
+		}
+	}
+	if e["res"] == "sendfail" && !st.oneway {
+		w.ended(st)
 	}
 }
 
@@ -354,7 +420,21 @@ func (w *mworld) liveStream(id int) *mstream {
 	return s
 }
 
-func (w *mworld) ended(s *mstream) { w.free = append(w.free, s.ctx) }
+// ended: the attempt is over for its caller (a retry may re-use its downstream context). The caller of a leased
+// stream learns of its end when it writes the request.
+func (w *mworld) ended(s *mstream) {
+	if !s.pend {
+		w.free = append(w.free, s.ctx)
+	}
+}
+
+// pendStream returns stream id if it was handed out and its request has not been written.
+func (w *mworld) pendStream(id int) *mstream {
+	if id < 1 || id > len(w.streams) || !w.streams[id-1].pend {
+		return nil
+	}
+	return w.streams[id-1]
+}
 
 // streamsOn returns the live two-way streams that run on connection c.
 func (w *mworld) streamsOn(c *xc09.Conn) []*mstream {
@@ -391,11 +471,30 @@ func (w *mworld) apply(o mop, e vh.Ev) bool {
 	case "new":
 		w.doNew(o, e)
 		return true
-	case "resp", "reset", "rreset":
-		s := w.liveStream(o.S)
+	case "lease":
+		if st := w.doLease(o, e); st != nil && st.conn == nil {
+			// the binding pool names the connection only when it dials it: take the client it keeps for the downstream connection
+			if st.conn = w.clientOf(o.I); st.conn != nil {
+				e["cvar"], e["c"] = st.conn.N, st.conn.N
+			}
+		}
+		return true
+	case "send":
+		s := w.pendStream(o.S)
 		if s == nil {
 			return false
 		}
+		w.doSend(s, o.Enc, e)
+		return true
+	case "resp", "reset", "rreset":
+		s := w.liveStream(o.S)
+		if p := w.pendStream(o.S); p != nil && o.Op == "reset" && p.conn != nil && (p.oneway || !p.lst.isDestroyed()) {
+			s = p // a stream can be reset before its request is written
+		}
+		if s == nil {
+			return false
+		}
+		s.pend = false
 		e["s"], e["c"], e["res"] = o.S, s.conn.N, "ok"
 		switch o.Op {
 		case "resp":
@@ -479,6 +578,9 @@ func (w *mworld) apply(o mop, e vh.Ev) bool {
 			e["res"] = "stuck"
 		}
 		for _, s := range on {
+			if s.pend { // reset by the close event (it has gone through every listener by now) if the connection knows the stream
+				continue
+			}
 			if !waitCh(s.lst.destroyed) {
 				e["res"] = "stuck"
 			}
